@@ -691,17 +691,15 @@ func (r *reference) afterStore(o Op, d ocispec.Descriptor, res result, st *store
 		return nil
 	}
 	if reason == "clobbered" {
-		st.noIndex = true
 		return &failure{"file-name-alias-overwrite", fmt.Sprintf("push %s => %v: a titled successor could not be restored from a file that was overwritten through a second name", o, res.err)}
 	}
-	// the property: a failed operation changes nothing.  Here the content is already stored
-	// (and earlier successors restored) when restoreDuplicates fails, and it is never indexed.
-	st.noIndex = true
+	// the property: a failed operation changes nothing.  Here the content is already stored and
+	// indexed (and earlier successors restored) when restoreDuplicates fails.
 	run.Count("file/pattern/restore-fails-" + reason)
 	if !restoreErr(res.err) {
 		return &failure{"restore-outcome", fmt.Sprintf("push %s: restoring the titled successors should fail (%s), got %v", o, reason, res.err)}
 	}
-	return &failure{"file-restore-failed-after-store", fmt.Sprintf("push %s failed (%v) after the content was stored: Exists answers true, a re-push is already-exists, Predecessors never lists it", o, res.err)}
+	return &failure{"file-restore-failed-after-store", fmt.Sprintf("push %s failed (%v) after the content was stored and indexed: Exists answers true, a re-push is already-exists", o, res.err)}
 }
 
 // expectedPreds: stored manifests (stored under a manifest media type) whose successor list contains n.
